@@ -68,6 +68,7 @@ type hctx struct {
 	contBudget   map[string]int // variant class -> images that may still be continued
 	failSnapOnce bool           // inject one snapshot failure at snap.written
 	midSnap      func()         // activity inside the failing snapshot: an acknowledged write and a colliding snapshot request
+	extra        []sm.Point     // the batch midSnap writes (the generator placed it right after that snapshot)
 	tornSnapOnce bool           // instead of an error: the freshly written snapshot file is cut in half before it is installed
 	recovering   bool           // root is being opened (hooks = crash during recovery)
 	failed       bool
@@ -218,6 +219,7 @@ func runCase(caseID string, seed int64, idx int, base string) bool {
 		}
 	}
 	if extra != nil {
+		c.extra = extra
 		c.midSnap = func() {
 			c.midSnap = nil
 			c.ops = append(c.ops, "  (inside the failing snapshot) "+sm.Op{Kind: "write", Batch: extra}.String())
@@ -275,6 +277,7 @@ func (c *hctx) runOps(ops []sm.Op, failSnapAt int) {
 		}
 		c.ops = append(c.ops, op.String())
 		c.pendW, c.pendD, c.pendKind = nil, nil, op.Kind
+		armedNow := false
 		if failSnapAt >= 0 && i >= failSnapAt && op.Kind == "snapshot" {
 			if c.tornMode {
 				c.tornSnapOnce = true
@@ -282,9 +285,19 @@ func (c *hctx) runOps(ops []sm.Op, failSnapAt int) {
 				c.failSnapOnce = true
 			}
 			failSnapAt = -1
+			armedNow = true
 		}
 		var opErr error
-		res, _ := ev.Watch(opLimit(), 20*time.Second, func() { opErr = c.exec(op) })
+		res, _ := ev.Watch(opLimit(), 20*time.Second, func() {
+			opErr = c.exec(op)
+			if opErr == nil && armedNow && c.midSnap != nil {
+				// the snapshot had nothing to flush, its hook never fired: the
+				// batch the generator placed here is written as an ordinary write
+				c.midSnap = nil
+				opErr = c.exec(sm.Op{Kind: "write", Batch: c.extra})
+				c.ops = append(c.ops, sm.Op{Kind: "write", Batch: c.extra}.String())
+			}
+		})
 		if res != ev.Finished {
 			r.Inconclusive(fmt.Sprintf("%s: %s did not finish (deadlock evidence=%v); history abandoned", c.caseID, op, res == ev.Deadlocked))
 			atomic.StoreInt32(c.dead, 1)
